@@ -93,11 +93,12 @@ def keepsOld (slot : Option Elem) (e : Elem) : Bool :=
   | none => false
   | some old => !decide (old.idx < e.idx)
 
-/-- The slot write of `Put` (queue.go:185-190). -/
+/-- The slot write of `Put` (queue.go:184-193): `len` counts the element only if the slot was empty (3d50aab:
+the replacement of a stale element is not counted again). -/
 def insert (s : State) (e : Elem) : State :=
   let pos := posOf s.cap e.idx
   let ring' := setSlot s.ring pos (some e)
-  { s with ring := ring', len := s.len + 1,
+  { s with ring := ring', len := if (s.ring pos).isSome then s.len else s.len + 1,
            lastQ := advLastQ s.cap ring' s.cap pos s.lastQ, signal := true }
 
 /-- The critical section of `Put` (queue.go:153-204) with the height `hr` read before the lock. -/
@@ -109,14 +110,15 @@ def put (s : State) (e : Elem) (hr : Nat) : State :=
     { s with signal := true }                 -- l.196-201 signal even if the element was dropped
   else insert s e
 
-/-- queue.go:105-111: `for i := lastHeight; i < h; i++ { old := pos(i+1); if queue[old] != nil &&
-queue[old].GetIndex() == i { len--; queue[old] = nil } }`; `n` = remaining iterations. -/
+/-- queue.go:103-109: `for i := lastHeight; i < h; i++ { old := pos(i+1); if queue[old] != nil &&
+queue[old].GetIndex() == i+1 { len--; queue[old] = nil } }` (3d50aab: `i+1`, the index that lives in that
+slot); `n` = remaining iterations. -/
 def cleanup (cap : Nat) : Nat → Nat → (Nat → Option Elem) → Int → (Nat → Option Elem) × Int
   | 0, _, ring, len => (ring, len)
   | n + 1, i, ring, len =>
     let old := posOf cap (i + 1)
     match ring old with
-    | some x => if x.idx = i then cleanup cap n (i + 1) (setSlot ring old none) (len - 1)
+    | some x => if x.idx = i + 1 then cleanup cap n (i + 1) (setSlot ring old none) (len - 1)
                 else cleanup cap n (i + 1) ring len
     | none => cleanup cap n (i + 1) ring len
 
